@@ -792,7 +792,7 @@ class VmTarSuite(Suite):
                 "From DH Require Import Spec.VmTar Model.VmTar.\n")
 
     def generate(self, rng, tier):
-        n = 1000 if tier == "thorough" else 110
+        n = 1000 if tier == "thorough" else 90
         cases = []
         for i in range(n):
             k = rng.weighted([("wf", 5), ("long", 2), ("malformed", 3), ("plain", 1)])
